@@ -512,7 +512,7 @@ pub fn run(opts: Opts) -> i32 {
             (json!("p1"), json!("p2")),
             (json!("p1"), json!({"tool": "write", "args": {"path": "a.txt", "content": "1"}})),
             (json!({"tool": "write", "args": {"path": "a.txt", "content": "1"}}), json!({"tool": "write", "args": {"path": "b.txt", "content": "2"}})),
-            (json!({"tool": "bash", "args": {"command": "sleep 0.05; echo x > c.txt"}}), json!({"tool": "write", "args": {"path": "c.txt", "content": "2"}})),
+            (json!({"tool": "bash", "args": {"command": "sleep 0.05; echo x > c.txt", "cwd": "."}}), json!({"tool": "write", "args": {"path": "c.txt", "content": "2"}})),
             (json!({"checkpoint": {"action": "create", "label": "l", "files": ["a.txt"]}}), json!("p")),
             (json!({"tool": "read", "args": {"path": "missing"}}), json!({"tool": "ls", "args": {}})),
         ];
